@@ -13,6 +13,7 @@ func init() {
 	verifHarnesses["h03a_witness"] = h03a_witness
 	verifHarnesses["h03b"] = h03b
 	verifHarnesses["h03c"] = h03c
+	verifHarnesses["h03d"] = h03d
 }
 
 // zzCheckDecode is the body of C03 for one input b and requested type t:
@@ -42,8 +43,9 @@ func zzCheckDecode(b []byte, t wire.Type) {
 	serr2 := sr2.Skip(t)
 	sr2.Close()
 
-	// pure streaming decode over the non-seekable reader
-	os3 := &zzOneShot{b: b}
+	// pure streaming decode over the non-seekable reader (which, by choice,
+	// returns io.EOF together with the last bytes)
+	os3 := &zzOneShot{b: b, eofWithData: verifParam("eofdata") == 1}
 	sr3 := NewStreamReader(os3)
 	sn, sterr := zzStreamRead(sr3, t)
 	sr3.Close()
@@ -150,5 +152,50 @@ func h03c() {
 	if e3 == nil && e4 == nil {
 		verifAssert(o2.off == c2.off, "chunk-skip-consumed")
 	}
+	verifReached("end")
+}
+
+// h03d: deeply nested values (chains of structs, of lists, and alternating)
+// of 63..130 levels with a symbolic leaf: decode, force, re-encode, skip and
+// stream-decode agree exactly as for shallow values.
+func h03d() {
+	depth := []int{63, 64, 65, 66, 130}[verifChoice(5)]
+	kind := verifChoice(3)
+	leaf := &zzNode{t: wire.TI32, num: uint64(uint32(verifI32()))}
+	n := leaf
+	for d := 0; d < depth; d++ {
+		useList := kind == 1 || (kind == 2 && d%2 == 1)
+		if useList {
+			n = &zzNode{t: wire.TList, kt: n.t, kids: []*zzNode{n}}
+		} else {
+			n = &zzNode{t: wire.TStruct, ids: []int16{1}, kids: []*zzNode{n}}
+		}
+	}
+	b := zzSpecEncode(n, nil)
+	rd := NewReader(bytes.NewReader(b))
+	v, off, err := rd.ReadValue(n.t, 0)
+	verifAssert(err == nil, "deep-decode-ok")
+	verifAssert(off == int64(len(b)), "deep-decode-consumed")
+	var buf bytes.Buffer
+	verifAssert(Default.Encode(v, &buf) == nil, "deep-reencode-ok")
+	verifAssert(buf.Len() == len(b), "deep-reencode-len")
+	verifAssert(zzBytesDiff(buf.Bytes(), b) == 0, "deep-reencode-bytes")
+	br := bytes.NewReader(b)
+	sr := NewStreamReader(br)
+	verifAssert(sr.Skip(n.t) == nil, "deep-skip-seek-ok")
+	verifAssert(br.Len() == 0, "deep-skip-seek-len")
+	sr.Close()
+	os := &zzOneShot{b: b}
+	sr2 := NewStreamReader(os)
+	verifAssert(sr2.Skip(n.t) == nil, "deep-skip-stream-ok")
+	verifAssert(os.off == len(b), "deep-skip-stream-len")
+	sr2.Close()
+	os3 := &zzOneShot{b: b}
+	sr3 := NewStreamReader(os3)
+	sn, err := zzStreamRead(sr3, n.t)
+	sr3.Close()
+	verifAssert(err == nil, "deep-stream-decode-ok")
+	same, diff := zzDiff(sn, n)
+	verifAssert(same && diff == 0, "deep-stream-decode-value")
 	verifReached("end")
 }
